@@ -821,21 +821,78 @@ fn tables_while_unwinding(report: &mut Report) {
 /// zero sized, one byte, heap allocated - must not matter): every method once per input case and
 /// closure outcome, with invocation counts.
 fn single_steps<T: Clone + PartialEq + std::fmt::Debug>(mk: &dyn Fn() -> T, tname: &str, report: &mut Report) {
+    single_steps_e::<T, i64>(mk, tname, report)
+}
+
+/// Error types of the single-step table: the error type (zero sized, one byte, heap allocated, large)
+/// is as much a hidden dimension of the generic combinators as the payload type.
+trait ErrT: Clone + PartialEq + std::fmt::Debug {
+    const NAME: &'static str;
+    fn mk(c: i64) -> Self;
+    fn bump(&self) -> Self;
+}
+impl ErrT for i64 {
+    const NAME: &'static str = "";
+    fn mk(c: i64) -> Self { c }
+    fn bump(&self) -> Self { self + 1 }
+}
+impl ErrT for () {
+    const NAME: &'static str = "/err-unit";
+    fn mk(_: i64) -> Self {}
+    fn bump(&self) -> Self {}
+}
+#[derive(Clone, PartialEq, Debug)]
+struct UnitErr;
+impl ErrT for UnitErr {
+    const NAME: &'static str = "/err-unit-struct";
+    fn mk(_: i64) -> Self { UnitErr }
+    fn bump(&self) -> Self { UnitErr }
+}
+#[derive(Clone, PartialEq, Debug)]
+enum OneErr { Only }
+impl ErrT for OneErr {
+    const NAME: &'static str = "/err-one-variant-enum";
+    fn mk(_: i64) -> Self { OneErr::Only }
+    fn bump(&self) -> Self { OneErr::Only }
+}
+impl ErrT for u8 {
+    const NAME: &'static str = "/err-u8";
+    fn mk(c: i64) -> Self { c as u8 }
+    fn bump(&self) -> Self { self.wrapping_add(1) }
+}
+impl ErrT for String {
+    const NAME: &'static str = "/err-String";
+    fn mk(c: i64) -> Self { format!("error {c}") }
+    fn bump(&self) -> Self { format!("{self}+") }
+}
+impl ErrT for [u64; 40] {
+    const NAME: &'static str = "/err-320-bytes";
+    fn mk(c: i64) -> Self { [c as u64; 40] }
+    fn bump(&self) -> Self { let mut x = *self; x[39] += 1; x }
+}
+impl ErrT for Box<i64> {
+    const NAME: &'static str = "/err-Box";
+    fn mk(c: i64) -> Self { Box::new(c) }
+    fn bump(&self) -> Self { Box::new(**self + 1) }
+}
+
+fn single_steps_e<T: Clone + PartialEq + std::fmt::Debug, E: ErrT>(mk: &dyn Fn() -> T, tname: &str, report: &mut Report) {
+    let tname = &format!("{tname}{}", E::NAME);
     use std::cell::Cell;
     #[derive(Clone, Debug, PartialEq)]
-    enum C<T> {
+    enum C<T, E> {
         F,
         Ok(T),
-        Err(i64),
+        Err(E),
     }
-    fn to_p<T: Clone>(c: &C<T>) -> Parsed<T, i64> {
+    fn to_p<T: Clone, E: Clone>(c: &C<T, E>) -> Parsed<T, E> {
         match c {
             C::F => Fallthrough,
             C::Ok(v) => Res(Ok(v.clone())),
-            C::Err(e) => Res(Err(*e)),
+            C::Err(e) => Res(Err(e.clone())),
         }
     }
-    fn of_p<T>(p: Parsed<T, i64>) -> C<T> {
+    fn of_p<T, E>(p: Parsed<T, E>) -> C<T, E> {
         match p {
             Fallthrough => C::F,
             Res(Ok(v)) => C::Ok(v),
@@ -850,7 +907,7 @@ fn single_steps<T: Clone + PartialEq + std::fmt::Debug>(mk: &dyn Fn() -> T, tnam
             report.violation(format!("combinator/payload-{tname}"), format!("payload type {tname}: {what}: {detail}"), json!({"property": "C15", "payload": tname, "what": what}), 1);
         }
     };
-    let cases: Vec<C<T>> = vec![C::F, C::Ok(mk()), C::Err(7)];
+    let cases: Vec<C<T, E>> = vec![C::F, C::Ok(mk()), C::Err(E::mk(7))];
     for init in &cases {
         let is_ok = matches!(init, C::Ok(_));
         let is_f = matches!(init, C::F);
@@ -869,12 +926,12 @@ fn single_steps<T: Clone + PartialEq + std::fmt::Debug>(mk: &dyn Fn() -> T, tnam
             let n = Cell::new(0u32);
             let got = to_p(init).or_always_parse(|| {
                 n.set(n.get() + 1);
-                if alt_ok { Ok(mk()) } else { Err(9) }
+                if alt_ok { Ok(mk()) } else { Err(E::mk(9)) }
             });
-            let want: Result<T, i64> = match init {
-                C::F => if alt_ok { Ok(mk()) } else { Err(9) },
+            let want: Result<T, E> = match init {
+                C::F => if alt_ok { Ok(mk()) } else { Err(E::mk(9)) },
                 C::Ok(v) => Ok(v.clone()),
-                C::Err(e) => Err(*e),
+                C::Err(e) => Err(e.clone()),
             };
             check(format!("{init:?}.or_always_parse(-> ok={alt_ok})"), got == want && n.get() == is_f as u32, format!("got {got:?} with {} call(s)", n.get()));
         }
@@ -882,28 +939,28 @@ fn single_steps<T: Clone + PartialEq + std::fmt::Debug>(mk: &dyn Fn() -> T, tnam
             let n = Cell::new(0u32);
             let got = to_p(init).or_give_up(|| {
                 n.set(n.get() + 1);
-                5
+                E::mk(5)
             });
-            let want: Result<T, i64> = match init {
-                C::F => Err(5),
+            let want: Result<T, E> = match init {
+                C::F => Err(E::mk(5)),
                 C::Ok(v) => Ok(v.clone()),
-                C::Err(e) => Err(*e),
+                C::Err(e) => Err(e.clone()),
             };
             check(format!("{init:?}.or_give_up"), got == want && n.get() == is_f as u32, format!("got {got:?} with {} call(s)", n.get()));
         }
         {
             let got = to_p(init).optional();
-            let want: Result<Option<T>, i64> = match init {
+            let want: Result<Option<T>, E> = match init {
                 C::F => Ok(None),
                 C::Ok(v) => Ok(Some(v.clone())),
-                C::Err(e) => Err(*e),
+                C::Err(e) => Err(e.clone()),
             };
             check(format!("{init:?}.optional"), got == want, format!("got {got:?}"));
             let got = to_p(init).matches();
-            let want: Result<bool, i64> = match init {
+            let want: Result<bool, E> = match init {
                 C::F => Ok(false),
                 C::Ok(_) => Ok(true),
-                C::Err(e) => Err(*e),
+                C::Err(e) => Err(e.clone()),
             };
             check(format!("{init:?}.matches"), got == want, format!("got {got:?}"));
         }
@@ -911,29 +968,29 @@ fn single_steps<T: Clone + PartialEq + std::fmt::Debug>(mk: &dyn Fn() -> T, tnam
             let n = Cell::new(0u32);
             let got = of_p(to_p(init).and_then(|v| {
                 n.set(n.get() + 1);
-                if cont_ok { Ok(v) } else { Err(9) }
+                if cont_ok { Ok(v) } else { Err(E::mk(9)) }
             }));
-            let want = if is_ok && !cont_ok { C::Err(9) } else { init.clone() };
+            let want = if is_ok && !cont_ok { C::Err(E::mk(9)) } else { init.clone() };
             check(format!("{init:?}.and_then(-> ok={cont_ok})"), got == want && n.get() == is_ok as u32, format!("got {got:?} with {} call(s)", n.get()));
             let n = Cell::new(0u32);
             let got = of_p(to_p(init).and_also(|_v| {
                 n.set(n.get() + 1);
-                if cont_ok { Ok(()) } else { Err(9) }
+                if cont_ok { Ok(()) } else { Err(E::mk(9)) }
             }));
             check(format!("{init:?}.and_also(-> ok={cont_ok})"), got == want && n.get() == is_ok as u32, format!("got {got:?} with {} call(s)", n.get()));
             // ResultExt on plain results
             if !is_f {
-                let r: Result<T, i64> = match init {
+                let r: Result<T, E> = match init {
                     C::Ok(v) => Ok(v.clone()),
-                    C::Err(e) => Err(*e),
+                    C::Err(e) => Err(e.clone()),
                     C::F => unreachable!(),
                 };
                 let n = Cell::new(0u32);
                 let got = ResultExt::and_also(r.clone(), |_v| {
                     n.set(n.get() + 1);
-                    if cont_ok { Ok(()) } else { Err(9) }
+                    if cont_ok { Ok(()) } else { Err(E::mk(9)) }
                 });
-                let want_r: Result<T, i64> = if is_ok && !cont_ok { Err(9) } else { r.clone() };
+                let want_r: Result<T, E> = if is_ok && !cont_ok { Err(E::mk(9)) } else { r.clone() };
                 check(format!("Result {r:?}.and_also(-> ok={cont_ok})"), got == want_r && n.get() == is_ok as u32, format!("got {got:?} with {} call(s)", n.get()));
             }
         }
@@ -950,33 +1007,65 @@ fn single_steps<T: Clone + PartialEq + std::fmt::Debug>(mk: &dyn Fn() -> T, tnam
             let n = Cell::new(0u32);
             let got = of_p(to_p(init).map_err(|e| {
                 n.set(n.get() + 1);
-                e + 1
+                e.bump()
             }));
-            let want = if let C::Err(e) = init { C::Err(e + 1) } else { init.clone() };
+            let want = if let C::Err(e) = init { C::Err(e.bump()) } else { init.clone() };
             check(format!("{init:?}.map_err"), got == want && n.get() == is_err as u32, format!("got {got:?} with {} call(s)", n.get()));
-            let got = of_p(to_p(init).err_into::<i64>());
+            let got = of_p(to_p(init).err_into::<E>());
             check(format!("{init:?}.err_into"), got == *init, format!("got {got:?}"));
             let back = of_p(Parsed::from(match init {
                 C::Ok(v) => Ok(v.clone()),
-                C::Err(e) => Err(*e),
-                C::F => Err(-1),
+                C::Err(e) => Err(e.clone()),
+                C::F => Err(E::mk(-1)),
             }));
-            let want = if is_f { C::Err(-1) } else { init.clone() };
+            let want = if is_f { C::Err(E::mk(-1)) } else { init.clone() };
             check(format!("Parsed::from(result of {init:?})"), back == want, format!("got {back:?}"));
             if !is_f {
-                let r: Result<T, i64> = match init {
+                let r: Result<T, E> = match init {
                     C::Ok(v) => Ok(v.clone()),
-                    C::Err(e) => Err(*e),
+                    C::Err(e) => Err(e.clone()),
                     C::F => unreachable!(),
                 };
                 let n = Cell::new(0u32);
                 let got = ResultExt::and_do(r.clone(), |_v| n.set(n.get() + 1));
                 check(format!("Result {r:?}.and_do"), got == r && n.get() == is_ok as u32, format!("got {got:?} with {} call(s)", n.get()));
-                let got: Result<T, i64> = ResultExt::err_into(r.clone());
+                let got: Result<T, E> = ResultExt::err_into(r.clone());
                 check(format!("Result {r:?}.err_into"), got == r, format!("got {got:?}"));
             }
         }
     }
+}
+
+/// Every single-step table (payload types, error types, zero sized callables, large closures,
+/// unwinding context); shared by the run and by replays.
+fn all_tables(report: &mut Report) {
+    // payload types: the combinators are generic, the payload's size or kind must not matter
+    single_steps::<()>(&|| (), "unit", report);
+    single_steps::<[u64; 0]>(&|| [], "empty-array", report);
+    single_steps::<u8>(&|| 200u8, "u8", report);
+    single_steps::<String>(&|| "payload".to_string(), "String", report);
+    single_steps::<Vec<u128>>(&|| vec![1, 2, 3], "Vec", report);
+    single_steps::<Option<Box<i64>>>(&|| None, "None", report);
+    single_steps::<[u64; 32]>(&|| [7; 32], "256-bytes", report);
+    single_steps::<[u128; 20]>(&|| [1; 20], "320-bytes", report);
+    // error types: zero sized (unit, unit struct, one-variant enum), one byte, heap allocated, large
+    single_steps_e::<u8, ()>(&|| 200u8, "u8", report);
+    single_steps_e::<String, ()>(&|| "payload".to_string(), "String", report);
+    single_steps_e::<(), ()>(&|| (), "unit", report);
+    single_steps_e::<u8, UnitErr>(&|| 200u8, "u8", report);
+    single_steps_e::<String, OneErr>(&|| "payload".to_string(), "String", report);
+    single_steps_e::<u8, u8>(&|| 200u8, "u8", report);
+    single_steps_e::<String, String>(&|| "payload".to_string(), "String", report);
+    single_steps_e::<(), [u64; 40]>(&|| (), "unit", report);
+    single_steps_e::<[u64; 32], [u64; 40]>(&|| [7; 32], "256-bytes", report);
+    single_steps_e::<u8, Box<i64>>(&|| 200u8, "u8", report);
+    report.completed.push("the single-step table also for the error types (), a unit struct, a one-variant enum, u8, String, Box<i64> and [u64; 40] (the error type is a hidden dimension like the payload type)".to_string());
+    fn_item_steps::<()>("unit", report);
+    fn_item_steps::<u8>("u8", report);
+    fn_item_steps::<String>("String", report);
+    fn_item_steps::<[u64; 32]>("256-bytes", report);
+    big_closure_steps(report);
+    tables_while_unwinding(report);
 }
 
 pub fn run(tier: Tier, report: &mut Report) {
@@ -1032,21 +1121,7 @@ pub fn run(tier: Tier, report: &mut Report) {
         s["closure_calls"] = json!(format!("{real_calls:?}"));
         report.sample(s);
     }
-    // payload types: the combinators are generic, the payload's size or kind must not matter
-    single_steps::<()>(&|| (), "unit", report);
-    single_steps::<[u64; 0]>(&|| [], "empty-array", report);
-    single_steps::<u8>(&|| 200u8, "u8", report);
-    single_steps::<String>(&|| "payload".to_string(), "String", report);
-    single_steps::<Vec<u128>>(&|| vec![1, 2, 3], "Vec", report);
-    single_steps::<Option<Box<i64>>>(&|| None, "None", report);
-    single_steps::<[u64; 32]>(&|| [7; 32], "256-bytes", report);
-    single_steps::<[u128; 20]>(&|| [1; 20], "320-bytes", report);
-    fn_item_steps::<()>("unit", report);
-    fn_item_steps::<u8>("u8", report);
-    fn_item_steps::<String>("String", report);
-    fn_item_steps::<[u64; 32]>("256-bytes", report);
-    big_closure_steps(report);
-    tables_while_unwinding(report);
+    all_tables(report);
     report.completed.push("closures capturing 192 bytes by value as alternatives / continuations; the tables once more inside a Drop while the thread unwinds from an unrelated panic".to_string());
     report.completed.push("the same table with zero sized callables (function items, invocations counted through a thread local) for the payload types (), u8, String, [u64; 32]; payloads of 256 and 320 bytes in the closure-driven table".to_string());
     report.completed.push("single-step table of every method x input case x closure outcome for the payload types (), [u64; 0], u8, String, Vec<u128>, Option<Box<i64>>".to_string());
@@ -1060,20 +1135,7 @@ pub fn run(tier: Tier, report: &mut Report) {
 pub fn replay(v: &Value) -> (bool, String) {
     if v.get("payload").is_some() {
         let mut r = Report::new();
-        single_steps::<()>(&|| (), "unit", &mut r);
-        single_steps::<[u64; 0]>(&|| [], "empty-array", &mut r);
-        single_steps::<u8>(&|| 200u8, "u8", &mut r);
-        single_steps::<String>(&|| "payload".to_string(), "String", &mut r);
-        single_steps::<Vec<u128>>(&|| vec![1, 2, 3], "Vec", &mut r);
-        single_steps::<Option<Box<i64>>>(&|| None, "None", &mut r);
-        single_steps::<[u64; 32]>(&|| [7; 32], "256-bytes", &mut r);
-        single_steps::<[u128; 20]>(&|| [1; 20], "320-bytes", &mut r);
-        fn_item_steps::<()>("unit", &mut r);
-        fn_item_steps::<u8>("u8", &mut r);
-        fn_item_steps::<String>("String", &mut r);
-        fn_item_steps::<[u64; 32]>("256-bytes", &mut r);
-        big_closure_steps(&mut r);
-        tables_while_unwinding(&mut r);
+        all_tables(&mut r);
         let text: String = r.violations.values().map(|x| format!("  {}\n", x.what)).collect();
         return (r.violation_count > 0, format!("single-step table over the payload types: {} deviation(s)\n{text}", r.violation_count));
     }
